@@ -70,6 +70,12 @@ def make_plan(prop, total, tier, rule):
             wr.append('c06::WrapRep<%s, %s, %s>::reg("%s")' % (tag, rep, 'true' if total else 'false', rl))
     units.append(Unit('%s-wrap-gxx' % prop, 'gxx', 'props/C06.h', wr, rc_cases=cases * 5, enum_max=0, chunk=6))
     units.append(Unit('%s-wrap-clang' % prop, 'clang', 'props/C06.h', wr[:8], rc_cases=cases * 5, enum_max=0, chunk=6))
+    # scaled_integer<overflow_integer<Rep, Tag>>: every exponent gap (signed reps reject gaps beyond their digits at compile time)
+    sweeps = []
+    for tag, tn in (('cnl::saturated_overflow_tag', 'saturated'), ('cnl::_impl::throwing_overflow_tag', 'throwing'), ('cnl::trapping_overflow_tag', 'trapping')):
+        for rep, rn, hi in (('unsigned', 'u32', 70), ('int', 'i32', 30), ('unsigned char', 'u8', 40), ('unsigned long', 'u64', 70)):
+            sweeps.append(('So_%s_%s' % (tn, rn), 'c06::ScaledOvf<%s, %s, E, %s>' % (tag, rep, 'true' if total else 'false'), 'scaled-overflow|%s|%s' % (tn, rn), 1, hi))
+    units += sweep_units(prop, 'props/C06.h', sweeps, cases * 4, nunits=6, keep=(lambda i, r: i % 2 == 0) if quick else None)
     return dict(units=units, rule=rule, assumptions=[
         'the trapping tag is observed through hook H2 (abort hook + longjmp) rather than by letting the process die',
         'UB or an internal error inside CNL is a failure for both C06 and C07 (classes .../ub-trap, .../abort:...)'])
